@@ -32,6 +32,11 @@ type Attacker struct {
 	ToWitness bool   `json:"to_witness,omitempty"` // attacker subscribes to the witness topic
 	OddWill   string `json:"odd_will,omitempty"`   // will topic that is not a valid topic name (kept with a trailing blank so that "" shows)
 	BigWill   int    `json:"big_will,omitempty"`   // size of the will message in the CONNECT (the witness subscriber listens to the will topic)
+	// end "limit-window-cut": after its valid session the client writes the first WinSplit bytes
+	// of a PUBLISH packet of WinTotal bytes (around the largest packet the inbound buffer takes
+	// in, BufSize-8192), then the rest, and is cut
+	WinTotal int `json:"win_total,omitempty"`
+	WinSplit int `json:"win_split,omitempty"`
 }
 
 type C05Case struct {
@@ -172,6 +177,25 @@ func runC05(c C05Case) (res c05result) {
 					trapNote <- "!the connection of a client that flooded the broker with requests, read no answer and was cut was not torn down"
 				} else {
 					trapNote <- "flood-of-requests-unread-then-cut"
+				}
+			case "limit-window-cut":
+				at.Barrier()
+				topic := "att/win"
+				pl := a.WinTotal - (1 + 2 + 2 + len(topic)) // fixed header with a 2-byte remaining length, topic length prefix
+				pk := codec.Encode(&codec.Packet{Type: codec.PUBLISH, Topic: []byte(topic), Payload: bytes.Repeat([]byte{'W'}, pl)})
+				split := a.WinSplit
+				if split >= len(pk) {
+					split = len(pk) - 1
+				}
+				at.SendRawTimeout(pk[:split], 2*time.Second)
+				time.Sleep(2 * time.Millisecond)
+				at.SendAsync(pk[split:])
+				time.Sleep(20 * time.Millisecond)
+				at.Close()
+				if !at.WaitTeardown(wire.DefaultWait) {
+					trapNote <- fmt.Sprintf("!the connection of a client that wrote a %d-byte packet in pieces of %d and %d bytes (the inbound buffer takes in packets up to %d bytes) and was cut was not torn down", len(pk), split, len(pk)-split, c.BufSize-8192)
+				} else {
+					trapNote <- "packet-around-the-size-limit-in-two-pieces-then-cut"
 				}
 			case "stall-disconnect":
 				// the subscriber stops reading, traffic addressed to it piles up (its ring fills
@@ -466,6 +490,13 @@ func genC05(t *rapid.T) C05Case {
 	c := C05Case{BufSize: 16384, WitnessQoS: byte(rapid.IntRange(0, 1).Draw(t, "wq")), NMsgs: rapid.IntRange(12, 60).Draw(t, "nmsgs")}
 	for i, n := 0, rapid.IntRange(1, 3).Draw(t, "nattackers"); i < n; i++ {
 		c.Attackers = append(c.Attackers, genAttacker(t, &c, i))
+	}
+	if rapid.IntRange(0, 3).Draw(t, "window") == 0 {
+		limit := c.BufSize - 8192
+		a := Attacker{StartAt: rapid.IntRange(0, 3).Draw(t, "startat"), End: "limit-window-cut", Kind: "valid-session-then-packet-around-the-size-limit-in-pieces", Origin: "valid session",
+			WinTotal: limit + rapid.IntRange(-1, 4).Draw(t, "wintotal"), WinSplit: limit + rapid.SampledFrom([]int{1, 1, 1, 2, 2, 0, -1, 3}).Draw(t, "winsplit")}
+		a.Stream = codec.Encode(wire.ConnectPacket("win", true, 60))
+		c.Attackers = append(c.Attackers, a)
 	}
 	c.Transport = genTransport(t)
 	return c
